@@ -15,6 +15,7 @@ From V Require Import Gen.NodesXml Model.Xml Spec.XmlLex.
 From V Require Import Gen.Cli Model.CliModel Spec.CliDoc.
 From V Require Import Gen.Tagfilter Model.Tagfilter Spec.GfmFilter.
 From V Require Import Spec.Shape.
+From V Require Import Gen.Nodes Gen.TableRows Spec.Valid.
 Extraction Language OCaml.
 Set Extraction KeepSingleton.
 
@@ -158,4 +159,19 @@ Extraction "model.ml"
   Shape.s3
   Shape.s6
   Shape.s6w
+  Ast.all_kinds
+  Nodes.block
+  Nodes.contains_inlines
+  Nodes.accepts_lines
+  Nodes.can_contain
+  Valid.valid
+  Valid.validate
+  Valid.headings_ok
+  Valid.lists_ok
+  Valid.tables_ok
+  Valid.leaves_ok
+  Valid.structurally_valid
+  Valid.try_opening_row_cells
+  Valid.try_opening_header_cells
+  Valid.row_result
 .
